@@ -35,7 +35,7 @@ import (
 )
 
 func init() {
-	components["bytebuffer"] = &component{gen: bbGen, enum: bbEnum, run: bbRun}
+	components["bytebuffer"] = &component{gen: bbGen, enum: bbEnum, run: bbRun, direct: bbDirect}
 }
 
 // ---- scripted callees ----------------------------------------------------------------------------
